@@ -350,7 +350,7 @@ def compare(ctx, rows, proj, what, oracle=None, nontrivial=None, max_report=3, o
         transient = 0
         for op in list(bad):
             keep = []
-            for c, g, l in bad[op][:50]:
+            for c, g, l in bad[op][:8]:
                 again = [r for _ in range(recheck) for r in replay_cases(ctx, [c])]
                 if again and all(proj(parse_res(gg)) != proj(parse_res(ll)) for _, gg, ll in again):
                     keep.append((c, g, l))
